@@ -126,7 +126,7 @@ struct Remote {
     pending: BytesMut,
 }
 
-async fn run(nlanes: u64, kinds: &[u8], ops: &[Op]) -> Vec<String> {
+async fn run(nlanes: u64, kinds: &[u8], ops: &[Op]) -> (Vec<String>, Vec<String>) {
     let identity = Uuid::from_u128(999);
     let mut state = WriteState::new(identity, "/node");
     for l in 0..nlanes {
@@ -137,10 +137,16 @@ async fn run(nlanes: u64, kinds: &[u8], ops: &[Op]) -> Vec<String> {
     let mut keep = vec![];
     let mut outs = vec![];
     let rid = |r: u64| Uuid::from_u128(r as u128);
-    let mut start = |tasks: Vec<WriteTask>, inflight: &mut HashMap<u64, WriteTask>| {
+    // the operation that started the write in flight of each remote, and per operation what the
+    // writes it started eventually put on the wire
+    let mut started_by: HashMap<u64, usize> = HashMap::new();
+    let mut started: Vec<Vec<String>> = vec![vec![]; ops.len()];
+    let mut op_index = 0usize;
+    let mut start = |tasks: Vec<WriteTask>, inflight: &mut HashMap<u64, WriteTask>, started_by: &mut HashMap<u64, usize>, at: usize| {
         for t in tasks {
             let r = t.sender.remote_id().as_u128() as u64;
             assert!(inflight.insert(r, t).is_none(), "two writes in flight for one remote");
+            started_by.insert(r, at);
         }
     };
     for op in ops {
@@ -153,32 +159,47 @@ async fn run(nlanes: u64, kinds: &[u8], ops: &[Op]) -> Vec<String> {
             }
             Op::Link(r, l) => {
                 let t = state.link(rid(*r), &lane_name(*l)).await;
-                start(t.into_iter().collect(), &mut inflight);
+                start(t.into_iter().collect(), &mut inflight, &mut started_by, op_index);
             }
             Op::Unlink(r, l) => {
                 let t = state.unlink(rid(*r), &lane_name(*l)).await;
-                start(t.into_iter().collect(), &mut inflight);
+                start(t.into_iter().collect(), &mut inflight, &mut started_by, op_index);
             }
             Op::Unknown(r, l) => {
                 let t = state.unknown_lane(rid(*r), &format!("u{}", l)).await;
-                start(t.into_iter().collect(), &mut inflight);
+                start(t.into_iter().collect(), &mut inflight, &mut started_by, op_index);
             }
             Op::Event(l, target, rs) => {
                 let ts = state.handle_event(*l, LaneData::new(target.map(rid), rs.to_response()));
-                start(ts, &mut inflight);
+                start(ts, &mut inflight, &mut started_by, op_index);
             }
             Op::Done(r) => {
                 if let Some(task) = inflight.remove(r) {
-                    let (sender, buffer, result) = task.into_future().now_or_never().expect("a write did not complete although the channel has room");
+                    let (sender, buffer, result) = tokio::time::timeout(std::time::Duration::from_secs(5), task.into_future())
+                        .await
+                        .expect("a write did not complete although the channel has room");
                     result.expect("write failed");
                     // read what was written
                     let rem = remotes.get_mut(r).expect("write for a remote that was never added");
                     let mut chunk = [0u8; 4096];
-                    while let Some(Ok(n)) = rem.reader.read(&mut chunk).now_or_never() {
-                        if n == 0 {
-                            break;
+                    // a fresh cooperative budget: the byte channel yields Pending when it is used up
+                    tokio::task::yield_now().await;
+                    // the byte channel's own cooperative budget makes a poll return Pending now and
+                    // then although data is there: an empty poll is retried
+                    let mut empty_polls = 0;
+                    while empty_polls < 3 {
+                        match rem.reader.read(&mut chunk).now_or_never() {
+                            Some(Ok(n)) if n > 0 => {
+                                rem.pending.extend_from_slice(&chunk[..n]);
+                                empty_polls = 0;
+                            }
+                            Some(Ok(_)) => break,
+                            Some(Err(e)) => panic!("remote channel failed: {}", e),
+                            None => empty_polls += 1,
                         }
-                        rem.pending.extend_from_slice(&chunk[..n]);
+                    }
+                    if std::env::var("C04_DEBUG").is_ok() {
+                        eprintln!("done r={} read {} bytes", r, rem.pending.len());
                     }
                     let mut dec = RawResponseMessageDecoder;
                     while let Some(ResponseMessage { origin, path, envelope }) = dec.decode(&mut rem.pending).expect("undecodable frame") {
@@ -206,25 +227,28 @@ async fn run(nlanes: u64, kinds: &[u8], ops: &[Op]) -> Vec<String> {
                         });
                     }
                     assert!(rem.pending.is_empty(), "a write ended inside a frame");
+                    let by = started_by.remove(r).expect("a write in flight that nothing started");
+                    started[by].push(format!("({}, {})", r, coq_list(frames.iter().cloned())));
                     let next = state.replace(sender, buffer);
-                    start(next.into_iter().collect(), &mut inflight);
+                    start(next.into_iter().collect(), &mut inflight, &mut started_by, op_index);
                 }
             }
             Op::RemoveLane(l) => {
                 let ts = state.remove_lane(*l);
-                start(ts, &mut inflight);
+                start(ts, &mut inflight, &mut started_by, op_index);
             }
             Op::UnlinkAll => {
                 let ts = state.unlink_all();
-                start(ts, &mut inflight);
+                start(ts, &mut inflight, &mut started_by, op_index);
             }
             Op::RemoveRemote(r) => {
                 state.remove_remote(rid(*r));
             }
         }
         outs.push(coq_list(frames.into_iter()));
+        op_index += 1;
     }
-    outs
+    (outs, started.into_iter().map(|v| coq_list(v.into_iter())).collect())
 }
 
 fn main() {
@@ -249,8 +273,15 @@ fn main() {
     let mut emit = |ops: &[Op], w: &mut CaseWriter| {
         let ops2 = ops.to_vec();
         let outs = catch(std::panic::AssertUnwindSafe(|| rt.block_on(run(nlanes, &kinds, &ops2))))
-            .unwrap_or_else(|m| vec![format!("[FLinked 0] (* PANIC {} *)", m.replace("*)", "* )"))]);
-        let term = format!("({}, {}, {})", nlanes, coq_list(ops.iter().map(|o| o.coq())), coq_list(outs.iter().cloned()));
+            .unwrap_or_else(|m| (vec![format!("[FLinked 0] (* PANIC {} *)", m.replace("*)", "* )"))], vec![]));
+        let (outs, started) = outs;
+        let term = format!(
+            "({}, {}, {}, {})",
+            nlanes,
+            coq_list(ops.iter().map(|o| o.coq())),
+            coq_list(outs.iter().cloned()),
+            coq_list(started.iter().cloned())
+        );
         let human = format!("write_state ops={:?} frames={:?}", ops, outs);
         for o in ops {
             let k = format!("{:?}", o);
